@@ -615,6 +615,9 @@ func (p *Prog) GuardStrings(in ssa.Instruction) []string {
 		for _, extra := range p.validatorFacts(a) {
 			add(extra)
 		}
+		for _, extra := range p.boolHelperFacts(a) {
+			add(extra)
+		}
 	}
 	return out
 }
@@ -921,4 +924,32 @@ func ConstInt(v ssa.Value) (int64, bool) {
 func IsNilConst(v ssa.Value) bool {
 	c, ok := v.(*ssa.Const)
 	return ok && c.Value == nil
+}
+
+// boolHelperFacts: a guard that is a call to a private bool predicate stands for the
+// conjunction the predicate computes (when it is a single conjunction); its negation
+// stands for the negated condition when the predicate is a single comparison.
+func (p *Prog) boolHelperFacts(a Atom) []string {
+	call, ok := a.Cond.(*ssa.Call)
+	if !ok {
+		return nil
+	}
+	dnf, subst, ok := boolHelperDNF(call)
+	if !ok || len(dnf) != 1 {
+		return nil
+	}
+	saved := descSubst
+	descSubst = subst
+	defer func() { descSubst = saved }()
+	var out []string
+	if a.Pol {
+		for _, l := range dnf[0] {
+			out = append(out, NormAtom(l.Cond, l.Pol))
+		}
+		return out
+	}
+	if len(dnf[0]) == 1 {
+		return []string{NormAtom(dnf[0][0].Cond, !dnf[0][0].Pol)}
+	}
+	return nil
 }
